@@ -56,7 +56,7 @@ func runC16(c *Ctx) {
 	c.Check(la.Accesses >= 6, "C16.locked", "connection", "guarded accesses analysed", "", fmt.Sprintf("%d accesses on paths, %d directly under the mutex, the rest discharged at call sites", la.Accesses, la.Guarded))
 
 	isReadyRecv := func(ev *Ev) bool {
-		return (strings.HasPrefix(ev.Label, "recv:") || strings.HasPrefix(ev.Label, "select:recv:")) && len(ev.Args) > 0 && loadOfField(ev.Args[0].V, fReady)
+		return (strings.HasPrefix(ev.Label, "recv:") || strings.HasPrefix(ev.Label, "select:recv:")) && len(ev.Args) > 0 && (ev.Field == fReady || loadOfField(ev.Args[0].V, fReady))
 	}
 	isRefStore := func(ev *Ev, delta int64) bool {
 		if ev.Label != "store:connection.connection.ref" {
@@ -192,6 +192,30 @@ func runC16(c *Ctx) {
 			}
 			c.Floor(fmt.Sprintf("C16.join/paths(found=%v)", found), nJoin, 1)
 		}
+	}
+	// ---- the dialer is run by dial itself: one dial per entry, and dial outlives no attempt it started
+	c.Rule("C16.dial-owned", "every call of a connection.Dial function value in package connection is made by dial or a function it calls synchronously (never on a goroutine dial does not wait for): the entry's single dial is in flight exactly while dial runs, and a connection it obtains is either published in c.c or never existed")
+	{
+		reach := syncReach(dial)
+		n := 0
+		for _, f := range P.PkgFuncs("connection") {
+			if P.InTestFile(f) {
+				continue
+			}
+			instrs(f, func(in ssa.Instruction) {
+				ci, ok := in.(ssa.CallInstruction)
+				if !ok || ci.Common().IsInvoke() || staticCallee(ci.Common()) != nil {
+					return
+				}
+				if !isNamed(ci.Common().Value.Type(), "connection", "Dial") {
+					return
+				}
+				n++
+				_, isGo := in.(*ssa.Go)
+				c.Check(reach[f] && !isGo, "C16.dial-owned", fnName(f), "dialer invoked synchronously by dial", P.Pos(in.Pos()), "a dial that runs on its own goroutine can still be in flight (or succeed, unowned) after the entry was forgotten")
+			})
+		}
+		c.Floor("C16.dial-owned/dialer-calls", n, 1)
 	}
 	// ---- fail
 	{
